@@ -59,6 +59,8 @@ Proof.
   pose proof (mu_skip k) as Hskip. pose proof (mu_tail OChk k) as Htl. pose proof (mu_tail OTest k) as Htl2.
   destruct o; cbn [safe] in Hsafe; try discriminate Hsafe; cbn [exec];
     try match goal with |- context [if o_cl (s_o s) then _ else _] => destruct (o_cl (s_o s)) end;
+    try match goal with |- context [if o_pend (s_o s) && o_wfail (s_o s) then _ else _] =>
+          destruct (o_pend (s_o s) && o_wfail (s_o s)); [destruct rep|] end;
     try match goal with |- context [first_err] => unfold first_err; destruct (a_e (set_code (s_a s j) k)) end;
     try (eexists; split; [reflexivity|]; split; [apply Hoth|];
          split; [cbn [s_i]; rewrite ?(proj1 (proj2 (i_setdeadline_keeps _ _ _))); cbn; auto; try discriminate|];
@@ -190,7 +192,7 @@ Proof.
       assert (Hh : holds s j = true) by (unfold holds; rewrite Hlock; apply Nat.eqb_refl).
       destruct (holder_releases _ s j (le_n _) HI Hh Hf) as (tr1 & s1 & Hr1 & Hn1 & Ho1 & Hlk1 & Hf1).
       pose proof (run_INV tr1 s s1 HI Hr1) as HI1.
-      destruct (run_mono tr1 s s1 Hr1) as (Mo & Mi & Mp).
+      destruct (run_mono tr1 s s1 Hr1) as (Mo & Mi & Mp & _).
       assert (He1 : exit_at n (s_a s1 i) (s_o s1) (s_i s1)).
       { rewrite (Ho1 i ltac:(congruence)). exact (exit_at_mono n _ s s1 He Mo Mi Mp). }
       assert (Hlk1' : i_lk (s_i s1) = false).
